@@ -84,3 +84,52 @@ Import ListNotations.
 Theorem C20_run_spares_monitor_files :
   forallb MonitorRun.plan_spares ["max-rss.txt"%string; "max-rss.txt.tmp"%string; "monitor-rss.csv"%string] = true.
 Proof. exact source_plan_spares_monitor_files. Qed.
+
+(* the update's file operations and the file names are those of the source: Gen/GMonOps.v is extracted
+   from monitor_rss_process / get_peak_memory_gib on every run (temporary sibling opened with mode "w",
+   write, flush, fsync, close, os.replace onto the peak file; the reader tests, opens and parses that
+   same file) *)
+From BB Require Import Gen.GMonOps Proofs.GenTieMonOps.
+Theorem C20_source_tie_update_ops : forall v, GMonOps.monitor_update_ops v = Monitor.update_ops v.
+Proof. exact tie_monitor_update_ops. Qed.
+Theorem C20_source_tie_names :
+  GMonOps.monitor_peak_name = "max-rss.txt"%string /\
+  GMonOps.monitor_tmp_name = "max-rss.txt.tmp"%string /\
+  GMonOps.reader_file_name = GMonOps.monitor_peak_name /\
+  GMonOps.reader_steps = ["exists"%string; "open"%string; "read"%string].
+Proof. exact tie_monitor_names. Qed.
+(* ... and the run spares exactly these two names *)
+Theorem C20_run_spares_source_names :
+  forallb MonitorRun.plan_spares [GMonOps.monitor_peak_name; GMonOps.monitor_tmp_name] = true.
+Proof. vm_compute. reflexivity. Qed.
+
+(* ---- any number of readers of the finer kind (exists() and open() separate steps), started at arbitrary
+   times (Proofs/MonitorMany.v): execN interleaves the writer (index 0) and reader k (index k+1) under an
+   arbitrary schedule; no reader ever gets an error, every value read is a running maximum, a reader that
+   starts after another has finished never obtains less (and never "no value"); with one reader execN is
+   exec3.  MonitorMany.Demo.overlapping_readers_monotone_refuted shows that "started after the other
+   finished" cannot be dropped. *)
+From BB Require Import Proofs.MonitorMany.
+Theorem C20_many_readers_safe : forall samples mx0 n sched,
+  Forall (rsafe samples mx0)
+    (snd (execN sched (writer samples mx0) fs0 (repeat R3Start n))).
+Proof. exact many_readers_safe. Qed.
+Theorem C20_many_readers_monotone : forall samples mx0 n s1 s2 i j vi vj,
+  ~ In (S j) s1 ->
+  nth_error (snd (execN s1 (writer samples mx0) fs0 (repeat R3Start n))) i
+    = Some (R3Done (RSome vi)) ->
+  nth_error (snd (execN (s1 ++ s2) (writer samples mx0) fs0 (repeat R3Start n))) j
+    = Some (R3Done (RSome vj)) ->
+  vi = vj \/ PrimFloat.ltb vi vj = true.
+Proof. exact many_readers_monotone. Qed.
+Theorem C20_many_readers_never_disappears : forall samples mx0 n s1 s2 i j vi,
+  ~ In (S j) s1 ->
+  nth_error (snd (execN s1 (writer samples mx0) fs0 (repeat R3Start n))) i
+    = Some (R3Done (RSome vi)) ->
+  nth_error (snd (execN (s1 ++ s2) (writer samples mx0) fs0 (repeat R3Start n))) j
+    <> Some (R3Done RNone).
+Proof. exact many_readers_never_disappears. Qed.
+Theorem C20_execN_one_reader : forall sched ws s r,
+  execN (map idx_of_bool sched) ws s [r] =
+  (fst (exec3 sched ws s r), [snd (exec3 sched ws s r)]).
+Proof. exact execN_one_reader. Qed.
